@@ -3,4 +3,5 @@
 From SE Require Import Expr.IO C37.CseModel C37.CseLib C37.CseCheck.
 Require Import ExtrOcamlBasic.
 Extraction "semodel.ml" N_of_digits Z_of_digits digits_of_N tc_lookup tc_table hash expr_eqb expr_cmp wf
-  tree_cse_lib lib_ctors check_cse check_cse_parts rep_names backsubst get_args tree_ok.
+  tree_cse_lib lib_ctors check_cse check_cse_parts rep_names backsubst get_args tree_ok
+  excl_complete_run cse_guard.
